@@ -272,7 +272,7 @@ def check_dt_logical(case):
 
 
 SUBS = [
-    Sub('reduce', cases(), check, quick=3000, thorough=120000, tag=tag,
+    Sub('reduce', cases(), check, quick=12000, thorough=120000, tag=tag,
         rule='frame.f(axis, skipna) vs NumPy on each column/row alone'),
     Sub('dt_logical', None, check_dt_logical, quick=0, thorough=0, enum=enum_dt_logical,
         rule='all/any over multi-block datetime64 frames with a primed allocator (regression probe for uninitialised results)'),
